@@ -177,8 +177,10 @@ func (e *fnEnc) analyseCFG() {
 				}
 				if ci, ok := in.(ssa.CallInstruction); ok && e.top && e.contract != nil {
 					for _, n := range e.callNames(ci.Common()) {
+						// only the counter of this very site (and its per-argument counters) moves here
+						own := fmt.Sprintf("%s#%d", n, e.siteOrdinal(in, n))
 						for site := range e.contract.HitSites {
-							if strings.HasPrefix(site, n+"#") || strings.HasPrefix(site, n+"@") {
+							if site == own || strings.HasPrefix(site, n+"@") {
 								li.writes[hitsKey(site).Name] = true
 							}
 						}
@@ -201,7 +203,13 @@ func (e *fnEnc) callWrites(c *ssa.CallCommon, li *loopInfo) {
 		li.all = true
 	}
 	if name := e.vc.P.libCallName(c); name != "" && stdlibCallbacks[name] {
-		li.all = true
+		if cs := e.vc.P.callbackSummary(c); cs != nil && !cs.All {
+			for k := range cs.Writes {
+				li.writes[k] = true
+			}
+		} else {
+			li.all = true
+		}
 	}
 	for _, f := range fns {
 		if s := e.vc.P.Summ[f]; s != nil {
